@@ -200,6 +200,7 @@ type Contracts struct {
 	Ghosts map[string]*GhostDecl
 	GhostFields map[string]string  // name -> type: ghost attributes of objects (arrays GF_<name>)
 	Unscoped    map[string][]string // pkgpath::key -> property tags: functions outside a discipline sweep
+	Groups      map[string][]string // package path -> properties that share the package's state machine: a clause tagged with one of them counts for all
 	Bounded     []BoundedDecl
 	RuleArgs    map[string][]string // rule name -> function keys (pkgpath::key) it applies to
 	Rules       map[string][]string // whole-module syntactic rules claimed for properties (rule[tags] name)
@@ -213,7 +214,7 @@ type Contracts struct {
 
 func newContracts() *Contracts {
 	return &Contracts{Funcs: map[string]*FuncContract{}, Specs: map[string]*SpecFn{}, Lemmas: map[string]*Lemma{},
-		Ifaces: map[string]*IfaceContract{}, Ghosts: map[string]*GhostDecl{}, GhostFields: map[string]string{}, Unscoped: map[string][]string{}, Globals: map[string]*GlobalDecl{}, Externs: map[string]*FuncContract{}, Rules: map[string][]string{}, RuleArgs: map[string][]string{}, Sha: map[string]string{}}
+		Ifaces: map[string]*IfaceContract{}, Ghosts: map[string]*GhostDecl{}, GhostFields: map[string]string{}, Unscoped: map[string][]string{}, Globals: map[string]*GlobalDecl{}, Externs: map[string]*FuncContract{}, Groups: map[string][]string{}, Rules: map[string][]string{}, RuleArgs: map[string][]string{}, Sha: map[string]string{}}
 }
 
 type cline struct {
@@ -352,7 +353,7 @@ func matchParen(s string, i int) int {
 }
 
 var topKeywords = map[string]bool{"func": true, "closure": true, "spec": true, "lemma": true, "interface": true,
-	"field": true, "chan": true, "ghost": true, "axiom": true, "global": true, "ghostfield": true, "unscoped": true, "chanlog": true, "callguard": true, "extern": true, "rule": true, "bounded": true}
+	"field": true, "chan": true, "ghost": true, "axiom": true, "global": true, "ghostfield": true, "unscoped": true, "chanlog": true, "callguard": true, "extern": true, "rule": true, "bounded": true, "group": true}
 
 var clauseKeywords = map[string]bool{"requires": true, "ensures": true, "modifies": true, "safety": true, "pure": true,
 	"inline": true, "may_panic": true, "witness": true, "lemma": true, "role": true, "holds": true, "acquires": true,
@@ -925,6 +926,15 @@ func (cs *Contracts) parseBlock(b []cline, path, pkgPath string) {
 			cl.Recv = f[3]
 		}
 		cs.ChanLogs = append(cs.ChanLogs, cl)
+	case "group":
+		// group C05,C06,...: the properties listed share this package's state (each handler's
+		// transitions are assumptions of the others): a clause of a function of this package
+		// tagged with one of them is an obligation of all of them
+		for _, t := range splitTop(rest, ',') {
+			if t != "" {
+				cs.Groups[pkgPath] = append(cs.Groups[pkgPath], t)
+			}
+		}
 	case "bounded":
 		// bounded[tags] name: what it stands in for
 		tags, _, body := parseTagged(rest)
